@@ -233,6 +233,10 @@ func run(id string, info propInfo, tier string, seed uint64, replay string) int 
 		b.checks = int(n)
 	}
 	per := (b.checks + b.shards - 1) / b.shards
+	shrink := os.Getenv("VERIF_SHRINKTIME")
+	if shrink == "" {
+		shrink = "60s"
+	}
 	newDir := filepath.Join(verifRoot, "replays", id, "new")
 	if d := os.Getenv("VERIF_NEWDIR"); d != "" { // sensitivity runs keep their replays out of the tree
 		newDir = filepath.Join(d, id)
@@ -249,7 +253,7 @@ func run(id string, info propInfo, tier string, seed uint64, replay string) int 
 			out := filepath.Join(scratch, fmt.Sprintf("shard-%d.json", i))
 			c := exec.Command(testBin, "-test.run", "^Test"+id+"$", "-test.count=1", "-test.timeout", "0",
 				fmt.Sprintf("-rapid.checks=%d", per), fmt.Sprintf("-rapid.seed=%d", shardSeed), "-rapid.nofailfile",
-				"-rapid.shrinktime=90s")
+				"-rapid.shrinktime="+shrink)
 			c.Dir = scratch
 			c.Env = append(append([]string{}, baseEnv...), "VERIF_SHARD_OUT="+out, fmt.Sprintf("VERIF_SHARD=%d", i),
 				"VERIF_REPLAY_DIR="+newDir, fmt.Sprintf("VERIF_SEED_EFFECTIVE=%d", shardSeed),
@@ -292,6 +296,24 @@ func run(id string, info propInfo, tier string, seed uint64, replay string) int 
 				code = 2
 			}
 		}
+	}
+	// A check that could not judge most of its cases (the plugin failed or its output did not
+	// build: C01's business) is inconclusive, not green.
+	skipped, evals := 0, 0
+	for _, s := range shards {
+		if s == nil {
+			continue
+		}
+		evals += s.Evaluations
+		for k, n := range s.Classes {
+			if strings.HasPrefix(k, "skipped:plugin_failed") || strings.HasPrefix(k, "skipped:uncompilable") {
+				skipped += n
+			}
+		}
+	}
+	if code == 0 && violMsg == "" && evals > 0 && skipped*10 > evals*3 {
+		fmt.Fprintf(os.Stderr, "inconclusive: the plugin failed or its output did not build in %d of %d cases (see C01)\n", skipped, evals)
+		code = 2
 	}
 	violations := 0
 	if violMsg != "" {
